@@ -101,10 +101,15 @@ pub fn lace(args: &[&str], cwd: &Path, stdin: &[u8], release: bool, limit_s: u64
         });
     }
     let mut child = cmd.spawn().expect("spawn lace");
-    {
+    // (fed from a thread of its own: a child that answers every input line fills its output
+    // pipes long before a large input is written)
+    let feeder = {
         let mut si = child.stdin.take().unwrap();
-        let _ = si.write_all(stdin);
-    }
+        let data = stdin.to_vec();
+        std::thread::spawn(move || {
+            let _ = si.write_all(&data);
+        })
+    };
     let pid = child.id();
     let done = std::sync::Arc::new(std::sync::atomic::AtomicBool::new(false));
     let done2 = done.clone();
@@ -152,6 +157,7 @@ pub fn lace(args: &[&str], cwd: &Path, stdin: &[u8], release: bool, limit_s: u64
     let out = child.wait_with_output().expect("wait lace");
     done.store(true, Ordering::SeqCst);
     let _ = guard.join();
+    let _ = feeder.join();
     Run {
         code: out.status.code(),
         signal: out.status.signal(),
